@@ -103,8 +103,23 @@ def torque_balance(mdl: M.Model, tr, out, pid='C02'):
                         f'instant {k}: load torque of the last element {load[-1][k]!r}, load function at recorded '
                         f't={tr.t[k]!r}, theta={th[k]!r}, omega={w[k]!r} gives {Le!r}'))
             break
+    # (c') a second external load carried by an intermediate element: that element's load torque is its own function
+    l2 = mdl.case.get('load2')
+    if l2:
+        j = l2['at']
+        thj, wj = tr.get(j, 'angular position'), tr.get(j, 'angular speed')
+        sc2 = abs(l2['c0']) + abs(l2['csin']) + abs(l2['ct'])
+        for k in range(n):
+            Le = M.load_si(l2, tr.t[k], thj[k], wj[k])
+            if not abs(load[j][k] - Le) <= 1e-9 * (abs(Le) + sc2 + abs(l2['cw'] * wj[k])) + 1e-300:
+                out.append((f'{pid}/external-load/intermediate-element',
+                            f'instant {k}: load torque of element {j} (carrying its own external load) {load[j][k]!r}, its '
+                            f'load function at the recorded state gives {Le!r}'))
+                break
     # (d) upstream propagation of the load torque
     for i in range(mdl.n - 1, 0, -1):
+        if l2 and i - 1 == l2['at']:
+            continue                     # element i-1 carries its own external load
         exp = load[i] / mdl.etas[i] / mdl.ratios[i]
         bad = np.nonzero(~(np.abs(load[i - 1] - exp) <= MUL_TOL * np.maximum(np.abs(load[i - 1]), np.abs(exp)) + 1e-300))[0]
         if len(bad):
